@@ -46,7 +46,8 @@ Inductive work :=
 | WTargetChanged        (* Recv::set_target_connection_window *)
 | WLastHandleDropped    (* Drop for Streams: only the connection's own reference is left *)
 | WStreamRefDropped     (* drop_stream_ref: an unreferenced closed stream can be released *)
-| WReservationLowered.  (* StreamRef::reserve_capacity: returned capacity may have been given to a stream with buffered data *)
+| WReservationLowered   (* StreamRef::reserve_capacity: returned capacity may have been given to a stream with buffered data *)
+| WOnlyConnRefLeft.     (* drop_stream_ref: the last handle went away, only the connection's own reference is left (6b1d165) *)
 
 Inductive site :=
 | StCapacity (k : N)                         (* Stream::notify_capacity: the stream's capacity rose *)
